@@ -234,6 +234,96 @@ func rootIdent(e ast.Expr) *ast.Ident {
 	}
 }
 
+// Struct-typed package-level variables are tracked per first-level field: two
+// lazily built tables kept side by side in one struct, each under its own
+// Once, are different memory. A field is represented by a synthetic *types.Var
+// named "G.f"; a mention of the whole variable stands for all its fields.
+var (
+	fieldVars   = map[*types.Var]map[string]*types.Var{}
+	fieldParent = map[*types.Var]*types.Var{}
+)
+
+func structOf(v *types.Var) *types.Struct {
+	if isSyncType(v.Type()) {
+		return nil
+	}
+	st, _ := v.Type().Underlying().(*types.Struct)
+	if st == nil || st.NumFields() == 0 {
+		return nil
+	}
+	return st
+}
+
+func fieldVar(g *types.Var, f string) *types.Var {
+	st := structOf(g)
+	if st == nil {
+		return g
+	}
+	if fv := fieldVars[g][f]; fv != nil {
+		return fv
+	}
+	for i := 0; i < st.NumFields(); i++ {
+		if st.Field(i).Name() == f {
+			fv := types.NewVar(g.Pos(), g.Pkg(), g.Name()+"."+f, st.Field(i).Type())
+			if fieldVars[g] == nil {
+				fieldVars[g] = map[string]*types.Var{}
+			}
+			fieldVars[g][f] = fv
+			fieldParent[fv] = g
+			return fv
+		}
+	}
+	return g
+}
+
+// allFieldVars: the field variables standing for the whole of g (g itself if
+// it is not a struct).
+func allFieldVars(g *types.Var) []*types.Var {
+	st := structOf(g)
+	if st == nil || fieldParent[g] != nil {
+		return []*types.Var{g}
+	}
+	var out []*types.Var
+	for i := 0; i < st.NumFields(); i++ {
+		if st.Field(i).Name() == "_" {
+			continue
+		}
+		out = append(out, fieldVar(g, st.Field(i).Name()))
+	}
+	return out
+}
+
+// firstField: for a chain rooted at identifier id (id.f.g[i]...), the name of
+// the field selected directly on id ("" if none).
+func firstField(e ast.Expr) (id *ast.Ident, field string) {
+	switch v := e.(type) {
+	case *ast.Ident:
+		return v, ""
+	case *ast.SelectorExpr:
+		x := v.X
+		for {
+			if p, ok := x.(*ast.ParenExpr); ok {
+				x = p.X
+				continue
+			}
+			break
+		}
+		if rid, ok := x.(*ast.Ident); ok {
+			return rid, v.Sel.Name
+		}
+		return firstField(v.X)
+	case *ast.IndexExpr:
+		return firstField(v.X)
+	case *ast.StarExpr:
+		return firstField(v.X)
+	case *ast.ParenExpr:
+		return firstField(v.X)
+	case *ast.SliceExpr:
+		return firstField(v.X)
+	}
+	return nil, ""
+}
+
 func isSyncType(t types.Type) bool {
 	for {
 		if p, ok := t.(*types.Pointer); ok {
@@ -472,8 +562,11 @@ func (m *modAnalysis) build(pkgs []*pkgInfo) {
 // globalAddr: e is &G..., or a bare pointer-typed package-level G: returns G.
 func (p *pkgInfo) globalAddr(e ast.Expr) *types.Var {
 	if u, ok := e.(*ast.UnaryExpr); ok && u.Op == token.AND {
-		if id := rootIdent(u.X); id != nil {
+		if id, f := firstField(u.X); id != nil {
 			if v, ok := p.info.Uses[id].(*types.Var); ok && v.Pkg() != nil && v.Parent() == v.Pkg().Scope() {
+				if f != "" {
+					return fieldVar(v, f)
+				}
 				return v
 			}
 		}
@@ -559,12 +652,27 @@ func (p *pkgInfo) mentionsIn(n ast.Node, skipBodies bool, aliases map[types.Obje
 	var out []mention
 	writes := map[*ast.Ident]bool{}
 	skip := map[*ast.Ident]bool{}
+	// field selected directly on each identifier (G.f...)
+	selField := map[*ast.Ident]string{}
+	ast.Inspect(n, func(x ast.Node) bool {
+		if se, ok := x.(*ast.SelectorExpr); ok {
+			if id, f := firstField(se); id != nil && f != "" {
+				if _, seen := selField[id]; !seen {
+					selField[id] = f
+				}
+			}
+		}
+		return true
+	})
 	resolve := func(id *ast.Ident) *types.Var {
 		obj := p.info.Uses[id]
 		if obj == nil {
 			return nil
 		}
 		if v, ok := obj.(*types.Var); ok && v.Pkg() != nil && v.Parent() == v.Pkg().Scope() {
+			if f := selField[id]; f != "" {
+				return fieldVar(v, f)
+			}
 			return v
 		}
 		if g, ok := aliases[obj]; ok {
@@ -674,11 +782,15 @@ func (p *pkgInfo) mentionsIn(n ast.Node, skipBodies bool, aliases map[types.Obje
 			if g == nil || skip[v] {
 				return true
 			}
-			out = append(out, mention{g, writes[v]})
+			for _, fv := range allFieldVars(g) {
+				out = append(out, mention{fv, writes[v]})
+			}
 		case *ast.CallExpr:
 			if callee, _ := p.calleeOf(v); callee != nil {
 				for _, g := range asmGlobals[callee] {
-					out = append(out, mention{g, true})
+					for _, fv := range allFieldVars(g) {
+						out = append(out, mention{fv, true})
+					}
 				}
 			}
 		}
@@ -763,7 +875,9 @@ func scanAssembly(p *pkgInfo, tags []string) {
 					}
 					if !dup {
 						asmGlobals[cur] = append(asmGlobals[cur], v)
-						mutableAll[v] = true
+						for _, fv := range allFieldVars(v) {
+							mutableAll[fv] = true
+						}
 					}
 				}
 			}
@@ -783,12 +897,22 @@ func instrumentSched(p *pkgInfo, out string, overlay map[string]string, report m
 	// operations are points); a struct that contains one plus data is mutable data.
 	var mutNames, roNames []string
 	for _, v := range allVars {
-		if mutable[v] && !isSyncType(v.Type()) {
-			mutNames = append(mutNames, v.Name())
+		mut := mutable[v]
+		for _, fv := range fieldVars[v] {
+			if mutable[fv] && !isSyncType(fv.Type()) {
+				mut = true
+				mutNames = append(mutNames, fv.Name())
+			}
+		}
+		if mut && !isSyncType(v.Type()) {
+			if len(fieldVars[v]) == 0 {
+				mutNames = append(mutNames, v.Name())
+			}
 		} else {
 			roNames = append(roNames, v.Name())
 		}
 	}
+	sort.Strings(mutNames)
 	report[p.path] = map[string]any{"mutable_globals": mutNames, "read_only_globals": roNames}
 
 	// 2. rewrite files
@@ -893,7 +1017,10 @@ func instrumentSched(p *pkgInfo, out string, overlay map[string]string, report m
 				enter := &ast.ExprStmt{X: &ast.CallExpr{
 					Fun:  &ast.SelectorExpr{X: ast.NewIdent("vsched"), Sel: ast.NewIdent("Enter")},
 					Args: []ast.Expr{&ast.BasicLit{Kind: token.INT, Value: fmt.Sprint(id)}}}}
-				fd.Body.List = append([]ast.Stmt{enter}, fd.Body.List...)
+				leave := &ast.DeferStmt{Call: &ast.CallExpr{
+					Fun:  &ast.SelectorExpr{X: ast.NewIdent("vsched"), Sel: ast.NewIdent("Leave")},
+					Args: []ast.Expr{&ast.BasicLit{Kind: token.INT, Value: fmt.Sprint(id)}}}}
+				fd.Body.List = append([]ast.Stmt{enter, leave}, fd.Body.List...)
 				usedSched = true
 			}
 		}
